@@ -1056,8 +1056,33 @@ pub fn child18(seed: u64, idx: u64) -> Value {
                     if c.sample_rate() != rate || c.channels() != ch || c.bits_per_sample() != bps {
                         viol.push(("C18|StreamInfo|silently-truncated".into(), format!("holds rate={} ch={} bps={}", c.sample_rate(), c.channels(), c.bits_per_sample())));
                     }
-                    let (r1, r2): (Result<(), ()>, Result<(), ()>) = (Ok(()), Ok(()));
-                    if r1.is_ok() && r2.is_ok() {
+                    // setters: whatever they accept must still verify, serialise and parse back
+                    // (fields: 16-bit block sizes, 24-bit frame sizes, 36-bit total)
+                    let mut c = c;
+                    let with_setters = idx % 3 != 0;
+                    let mut all_ok = true;
+                    if with_setters {
+                        let bs = [16usize, 32, 4096, 32767, 32768, 65535, 65536, 0, 15];
+                        let (bmin, bmax) = (*rng.pick(&bs), *rng.pick(&bs));
+                        let fs = [0usize, 1, 1000, (1 << 24) - 1, 1 << 24, (1 << 24) + 5, u32::MAX as usize, (1usize << 32) + 7];
+                        let (fmin, fmax) = (*rng.pick(&fs), *rng.pick(&fs));
+                        let total = *rng.pick(&[0usize, 1, 4096, (1 << 32) - 1, 1 << 32, (1 << 36) - 1, 1 << 36, (1 << 36) + 12345, usize::MAX]);
+                        desc = format!("{desc} + set_block_sizes({bmin},{bmax}) + set_frame_sizes({fmin},{fmax}) + set_total_samples({total})");
+                        all_ok &= c.set_block_sizes(bmin, bmax).is_ok();
+                        all_ok &= c.set_frame_sizes(fmin, fmax).is_ok();
+                        c.set_total_samples(total);
+                        let mut d = [0u8; 16];
+                        for b in d.iter_mut() {
+                            *b = rng.next_u64() as u8;
+                        }
+                        c.set_md5_digest(&d);
+                    }
+                    // a setter that returns nothing cannot refuse: a value it took may make verify()
+                    // fail, and that is a correct outcome; only what verifies is followed further
+                    if with_setters && all_ok && !matches!(catch(|| c.verify()), Ok(Ok(())) | Err(_)) {
+                        all_ok = false;
+                    }
+                    if all_ok {
                         post!("StreamInfo", c, |b: &[u8], _bits: usize| {
                             flacenc::component::parser::stream_info::<ByteErr<'_>>(b).ok().map(|(_, x)| (format!("{x:?}"), enc::to_bytes(&x).unwrap_or_default()))
                         });
@@ -1075,11 +1100,27 @@ pub fn child18(seed: u64, idx: u64) -> Value {
                         }
                         // inside a stream: the 24-bit length field must be able to hold it
                         let mut st = Stream::new(44100, 1, 16).unwrap();
+                        // valid bounds instead of the documented sentinels (known finding C18|StreamInfo|parser-rejects)
+                        let _ = st.stream_info_mut().set_block_sizes(64, 64);
+                        let _ = st.stream_info_mut().set_frame_sizes(0, 0);
                         st.add_metadata_block(md);
                         if let Ok(bytes) = enc::to_bytes(&st) {
                             let rep = refdec::decode_stream(&bytes);
                             if rep.fatal().is_some() || rep.meta.len() != 1 || rep.meta[0].len != len || rep.meta[0].typ != tag {
                                 viol.push(("C18|MetadataBlockData|stream-with-block-malformed".into(), format!("tag={tag} len={len}: refdec sees {:?} / {:?}", rep.meta, rep.fatal().map(|i| i.clause))));
+                            } else if let Some(i) = rep.issues.iter().find(|i| i.clause.starts_with("metadata.")) {
+                                viol.push(("C18|MetadataBlockData|stream-with-block-malformed".into(), format!("tag={tag} len={len}: {} ({})", i.detail, i.clause)));
+                            }
+                            // and the block must come back from the crate's own parser as what it was
+                            if len < (1 << 20) {
+                                match flacenc::component::parser::stream::<ByteErr<'_>>(&bytes) {
+                                    Ok((rest, parsed)) => {
+                                        if !rest.is_empty() || enc::to_bytes(&parsed).ok().as_deref() != Some(&bytes[..]) {
+                                            viol.push(("C18|MetadataBlockData|parse-back-differs".into(), format!("tag={tag} len={len}: the stream holding the block re-serialises differently after parsing ({} bytes left)", rest.len())));
+                                        }
+                                    }
+                                    Err(_) => viol.push(("C18|MetadataBlockData|parser-rejects".into(), format!("tag={tag} len={len}: parser::stream rejects the stream holding the block"))),
+                                }
                             }
                         }
                     }
